@@ -364,7 +364,7 @@ def oracle(case):
     app = get_app(alg, qop, users, realm, requser, secret, timeout)
     nonce = issue_nonce(secret, agent, timeout, int(t0 * 1e6))
     scenario = rng.choice(["correct", "correct", "mutated", "mutated", "mutated", "nonce-age", "broken", "absent", "wrong-method",
-                           "other-user", "suffix-uri", "foreign-nonce", "wrong-password"])
+                           "other-user", "suffix-uri", "foreign-nonce", "wrong-password", "unknown-user"])
     age = 0.0
     expect_run, expect_stale, note = True, None, ""
     f = client_fields(hfun, alg, qop, user, realm, password, nonce, method, uri, opaque_of())
@@ -419,6 +419,19 @@ def oracle(case):
         fn = issue_nonce(rng.choice(["foreign", secret]), "another agent", timeout, int(t0 * 1e6))
         f = client_fields(hfun, alg, qop, user, realm, password, fn, method, uri, opaque_of())
         expect_run, expect_stale = False, None
+    elif scenario == "unknown-user":
+        # a name that is not registered (in this realm), with a response computed from what a sloppy lookup could
+        # put in the place of the stored hash: the text of None / False / 0, nothing, the name itself, another
+        # user's hash, the hash the name would have under a guessed password
+        ghost = rng.choice(["ghost", "None", "", "mallory é", "intruder", user + "x", user.upper() if user.upper() != user else "zz"])
+        if requser is not None:
+            ghost = rng.choice([ghost, requser + "2"])
+        if ghost in [u for u, _ in pool]:
+            ghost = "ghost"
+        stored = rng.choice(["None", "", "False", "0", "null", ghost, users[0][2], hexd(hfun, "%s:%s:%s" % (ghost, realm, "")),
+                             hexd(hfun, "%s:%s:%s" % (ghost, realm, password))])
+        f = client_fields(hfun, alg, qop, ghost, realm, "irrelevant", nonce, method, uri, opaque_of(), stored=stored)
+        expect_run, note = False, "user %r, hash taken as %r" % (ghost, stored[:12])
     elif scenario == "wrong-password":
         f = client_fields(hfun, alg, qop, user, realm, password + "x", nonce, method, uri, opaque_of())
         expect_run = False
